@@ -6,13 +6,20 @@ Spec: Parser.tla.  TLC
       the transcriptions of the two-accumulator loops (parseSeqQLFilter, parseExpr) accept exactly the
       reference precedence grammar and build a tree with the denotation of the written expression
       (RenderIsWellFormed, RenderDenotesTree, ParserEqualsReference, LegacyEqualsSeqQL,
-      AcceptsExactlyTheGrammar);
-  (b) emits every (tree, parenthesisation, spelling) with the truth table of the tree, every well-formed
+      AcceptsExactlyTheGrammar); the transcriptions of the loops that cut the value of a field filter into words
+      and terms (parseSeqQLText, parseSeqQLKeyword over the encoded token, byte offsets advanced by the decoded
+      width; textTokenBuilder / keywordTokenBuilder over runes) give, for every rune string over a palette of word
+      runes / separators / wildcard of every UTF-8 width 1..4, both cases and an invalid byte, exactly the maximal
+      runs of word runes of the declarative reference (ValueSplitsIntoWords), and each such phrase keeps its meaning
+      under not / or / and-not / in(...) (PhraseContextsKeepMeaning);
+  (b) emits every rune string of the phrase walk as the value of a text and of a keyword field in each context and
+      spelling (quoted with ", ' or `, or bare where the lexer allows it), with the truth table over its words;
+      emits every (tree, parenthesisation, spelling) with the truth table of the tree, every well-formed
       lexeme sequence of the grammar walk with its table, and every hostile lexeme sequence of the totality
       walk with the allowed outcomes {ok, err}.
 The Go driver `parserdrv` feeds the spelled strings to parser.ParseSeqQL / ParseQuery /
 ParseAggregationFilter (typed, nil and per-type mappings): the returned AST (incl. NAND) must have the
-table of the specification; a panic or a call that does not return is a totality violation.  A short walk
+table of the specification and no leaf that is not a word of the expression; a panic or a call that does not return is a totality violation.  A short walk
 is also sent through GrpcV1.Search of a real store."""
 import concurrent.futures
 import json
@@ -73,7 +80,10 @@ _SHOW = {"<SP>": " ", "<DQ>": '"', "<SQ>": "'", "<BQ>": "`", "<BS>": "\\", "<NL>
 
 
 def _show(pieces):
-    return "".join(_SHOW.get(x, x) for x in pieces)
+    s = "".join(_SHOW.get(x, x) for x in pieces)
+    for k, v in _SHOW.items():          # names inside a piece (<BS>*)
+        s = s.replace(k, v)
+    return re.sub(r"<U\+([0-9A-F]{4,6})>", lambda m: "\\u{%s}" % m.group(1), s)
 
 
 def _sample(label, c):
@@ -184,7 +194,13 @@ def run(ctx):
         "gwalk = every well-formed lexeme sequence of length <= 6 (thorough 8) over {a:x, b:x, and, or, not, (, )}; randtree = seeded "
         "random trees of depth <= 3; each is parsed by ParseSeqQL and (where the legacy syntax can write it) ParseQuery, under the typed and "
         "(without text phrases) the nil mapping; evaluations = parser calls; non-trivial sem case = truth table not constant. "
-        "tot (walkA/walkB/randwalk*): every lexeme sequence of length <= 4 (thorough: 6 over A, 5 over B) over an 18-lexeme hostile alphabet A (quotes of 3 kinds, "
+        "phrase (phraseP/phraseQ/randphrase): every string of <= 2 (thorough 3) runes over the 26-rune palette of Parser.tla (word runes: ASCII lower/upper, "
+        "digit, _, Cyrillic lower/upper, 1/2, CJK, Gothic = 1..4 bytes, escaped *; separators: space - . : # ) newline, no-break space, guillemet, em dash, "
+        "ellipsis, U+FFFD, emoji = 1..4 bytes, byte 0xFF; wildcard) and every string of <= 3 (thorough 5) runes over one rune per (class, width), plus seeded random "
+        "strings of <= 10 runes with full fan-out, each as the value of text field t alone / under not / in or / in and-not / first and middle element of in(...) / "
+        "between two other phrases, and as the value of keyword field a, spelled in styles s1..s4 (quoted \", ', `, or bare when every rune may stand outside quotes); "
+        "required: the truth table over the words decided by RefLits/RefKw and no leaf outside them. "
+        "tot (walkA/walkB/walkU/randwalk*): alphabet U = multi-byte separators (2, 3, 4 bytes), a 2-byte letter, 0xFF and U+E000 next to quotes, backslash, *, in( , );  every lexeme sequence of length <= 4 (thorough: 6 over A, 5 over B) over an 18-lexeme hostile alphabet A (quotes of 3 kinds, "
         "backslash, #, newline, 0xFF, U+E000, *, parentheses, keywords) and B (ranges, in, pipes, commas), plus seeded random walks of "
         "length <= 16 with full fan-out at every step, x 11 mappings of field f x {ParseSeqQL, ParseQuery} + ParseAggregationFilter; "
         "non-trivial tot input = accepted by at least one parser/mapping; input_strings = strings built from the cases (distinct within the exhaustive walks; random walks can repeat short prefixes). "
@@ -196,7 +212,11 @@ def run(ctx):
         "a hang is a parser call that does not return within 20 s (observed calls take microseconds; 300 s for the deep classes)",
         "nesting depth is sampled at a few sizes (B4 shape classes) up to 3*10^6, a query of 3-6 MB, which the store's gRPC server (256 MB limit) accepts",
         "the truth table is evaluated on the returned parser.ASTNode with NAND read as children[1] AND NOT children[0] (as frac/processor/eval_tree.go builds node.NewNAnd); leaves are one-word literals",
-        "the lexer/tokenizer of field values (quotes, escapes, wildcards inside terms) is not modelled: its meaning is covered only as 'same atoms come back' for the plain words x, y",
+        "field values are modelled as rune strings over the palette of Parser.tla (section iv): what is a word rune is taken from unicode.IsLetter/IsNumber/'_' as the "
+        "text tokenizer (tokenizer/text_tokenizer.go) has it, represented by one or two runes per (class, UTF-8 width, case); other escapes than \\*, runes whose "
+        "lower case has another width, and U+E000 typed by the user are not in the palette",
+        "two adjacent wildcards are compared for SeqQL only (the legacy builder reads ** in its own way), and the lower-casing of an invalid byte inside a keyword value is not demanded",
+        "a leaf of the returned tree that is none of the words of the expression is reported as a violation (the parser never adds conditions of its own)",
         "shape equality with the TLA+ transcription (PFilter/PExpr + PNot) is measured (ast_shape_equal_to_transcription) but a pure shape difference is reported as drift, not as a violation",
         "TLC evaluates the reference grammar (WF/RefTree) correctly",
     ]
